@@ -1,20 +1,9 @@
-(* Refutation witnesses on the model of the pinned tree (fixedc = false), and the same runs on
-   the repaired model. *)
+(* Refutation witnesses on the model of commit() as it was on the pinned tree ([pinned_dq]: the deque
+   discipline before the repair), and the same runs on the model of the current source ([src_dq], regenerated). *)
 From Coq Require Import List NArith Lia Bool.
-From HS Require Import GTac Node Proto Link NodeInv NodeLog.
+From HS Require Import GTac Node Corr Monitors Proto Link NodeInv NodeLog.
 Import ListNotations.
 Open Scope N_scope.
-
-Definition is_blkb (d : digest) : bool := match d with DBlk _ _ _ _ => true | _ => false end.
-Fixpoint chainb (l : list digest) : bool :=
-  match l with
-  | [] => true
-  | d :: r => is_blkb d &&
-              match r with
-              | [] => digest_eqb (dparent d) DZero
-              | d' :: _ => digest_eqb (dparent d) d' && chainb r
-              end
-  end.
 
 Lemma chainb_complete l : chain l -> chainb l = true.
 Proof.
@@ -24,15 +13,15 @@ Proof.
     rewrite digest_eqb_refl. simpl. exact IH.
 Qed.
 
-Definition log_of (fixedc : bool) (me : N) (bs : list Block) : list digest :=
-  s_log (fst (run c4 me fixedc (map (fun b => ([], EvPropose b)) bs) (init c4))).
+Definition log_of (dq : DqCfg) (me : N) (bs : list Block) : list digest :=
+  s_log (fst (run c4 me dq (map (fun b => ([], EvPropose b)) bs) (init c4))).
 
 (* pinned tree: ancestors delivered newest-first, before the head *)
-Theorem c02_refuted_order : ~ chain (log_of false 3 [B1; B3; B5; B6; B7]).
+Theorem c02_refuted_order : ~ chain (log_of pinned_dq 3 [B1; B3; B5; B6; B7]).
 Proof. intro H. apply chainb_complete in H. vm_compute in H. discriminate. Qed.
 
 (* pinned tree: the genesis placeholder is delivered *)
-Theorem c02_refuted_genesis : ~ chain (log_of false 3 [G3; G4; G5]).
+Theorem c02_refuted_genesis : ~ chain (log_of pinned_dq 3 [G3; G4; G5]).
 Proof. intro H. apply chainb_complete in H. vm_compute in H. discriminate. Qed.
 
 (* pinned tree: the last delivered block is delivered again *)
@@ -42,12 +31,12 @@ Definition D3 := mkblk (mkqc D2) None 3.             (* commits D1 *)
 Definition D6 := mkblk (mkqc D1) (Some (mktc 5 1)) 6. (* extends D1 directly, skipping D2 *)
 Definition D7 := mkblk (mkqc D6) None 7.
 Definition D8 := mkblk (mkqc D7) None 8.             (* commits D6: walk re-delivers D1 *)
-Eval vm_compute in map dround (log_of false 3 [D1; D2; D3; D6; D7; D8]).
-Eval vm_compute in map dround (log_of true 3 [D1; D2; D3; D6; D7; D8]).
-Theorem c02_refuted_duplicate : ~ chain (log_of false 3 [D1; D2; D3; D6; D7; D8]).
+Eval vm_compute in map dround (log_of pinned_dq 3 [D1; D2; D3; D6; D7; D8]).
+Eval vm_compute in map dround (log_of src_dq 3 [D1; D2; D3; D6; D7; D8]).
+Theorem c02_refuted_duplicate : ~ chain (log_of pinned_dq 3 [D1; D2; D3; D6; D7; D8]).
 Proof. intro H. apply chainb_complete in H. vm_compute in H. discriminate. Qed.
 
 (* the repaired model on the same inputs *)
-Example c02_fixed_order : chainb (log_of true 3 [B1; B3; B5; B6; B7]) = true. Proof. vm_compute. reflexivity. Qed.
-Example c02_fixed_genesis : chainb (log_of true 3 [G3; G4; G5]) = true. Proof. vm_compute. reflexivity. Qed.
-Example c02_fixed_duplicate : chainb (log_of true 3 [D1; D2; D3; D6; D7; D8]) = true. Proof. vm_compute. reflexivity. Qed.
+Example c02_fixed_order : chainb (log_of src_dq 3 [B1; B3; B5; B6; B7]) = true. Proof. vm_compute. reflexivity. Qed.
+Example c02_fixed_genesis : chainb (log_of src_dq 3 [G3; G4; G5]) = true. Proof. vm_compute. reflexivity. Qed.
+Example c02_fixed_duplicate : chainb (log_of src_dq 3 [D1; D2; D3; D6; D7; D8]) = true. Proof. vm_compute. reflexivity. Qed.
